@@ -6,6 +6,7 @@ behind C11, regenerated from the clang AST by the symbolic evaluator translate/e
   src_toPose2D        Pose2D toPose2D(const Pose3D &)           src/geometry/Pose3D.cpp   (Pose2D() and the two-argument overload inlined)
   src_toPosition3D    Position3D toPosition3D(const Pose3D &)   src/geometry/Pose3D.cpp
   src_toTwist2D       Twist2D toTwist2D(const Twist3D &)        src/geometry/Twist3D.cpp
+  src_toPoseAndTwist2D  PoseAndTwist2D toPoseAndTwist2D(const PoseAndTwist3D &)   src/geometry/PoseAndTwist3D.cpp (calls the two above)
 
 coq/SrcTieC11.v proves them equal to the models of PoseCovModel.v.  What cannot be translated is left out and reported for
 C11 only."""
@@ -25,7 +26,9 @@ P3, T3 = "src/geometry/Pose3D.cpp", "src/geometry/Twist3D.cpp"
 REQS = [(MH, "romea::core::toSe", TU2 + TU3),
         (P3, "romea::core::to", ""), ("src/geometry/Pose2D.cpp", "romea::core::Pose2D", ""),
         ("src/geometry/Position3D.cpp", "romea::core::Position3D", ""),
-        (T3, "romea::core::to", ""), ("src/geometry/Twist2D.cpp", "romea::core::Twist2D", "")]
+        (T3, "romea::core::to", ""), ("src/geometry/Twist2D.cpp", "romea::core::Twist2D", ""),
+        ("src/geometry/PoseAndTwist3D.cpp", "romea::core::toPoseAndTwist2D", ""),
+        ("src/geometry/PoseAndTwist2D.cpp", "romea::core::PoseAndTwist2D", "")]
 
 
 def index_of(loaded, keys):
@@ -61,14 +64,24 @@ def unit_convert(loaded, keys, name, cname, fields, lines):
     ret = ev.run(ds[0])
     if not isinstance(ret, Obj):
         raise Unsupported("%s does not return an object" % name)
-    if sorted(ret.fields) != sorted(fields):
-        raise Unsupported("%s returns the members %s (expected %s)" % (name, sorted(ret.fields), sorted(fields)))
     outs = []
-    for f in fields:
-        v = ret.fields[f]
-        if isinstance(v, Mat):
-            v.entries()          # raises on an uninitialised entry
-        outs.append((f, v))
+
+    def collect(o, want, prefix):
+        if sorted(o.fields) != sorted(f if isinstance(f, str) else f[0] for f in want):
+            raise Unsupported("%s returns the members %s (expected %s)" % (name, sorted(o.fields), want))
+        for f in want:
+            if isinstance(f, str):
+                v = o.fields[f]
+                if isinstance(v, Mat):
+                    v.entries()          # raises on an uninitialised entry
+                elif isinstance(v, Obj):
+                    raise Unsupported("member %s is an object" % f)
+                outs.append((prefix + f, v))
+            else:
+                if not isinstance(o.fields[f[0]], Obj):
+                    raise Unsupported("member %s is not an object" % f[0])
+                collect(o.fields[f[0]], f[1], prefix + f[0] + "_")
+    collect(ret, fields, "")
     text, _ = emit(ev, cname, outs, "%s: %s" % (keys[0][0], name))
     lines.append(text)
 
@@ -94,6 +107,10 @@ def generate(gen_dir, repo):
                                                      ["position", "covariance"], lines))
     attempt("src_toTwist2D", lambda: unit_convert(loaded, [REQS[4], REQS[5]], "toTwist2D", "src_toTwist2D",
                                                   ["linearSpeeds", "angularSpeed", "covariance"], lines))
+    attempt("src_toPoseAndTwist2D", lambda: unit_convert(loaded, [REQS[6], REQS[7], REQS[1], REQS[2], REQS[4], REQS[5]], "toPoseAndTwist2D",
+                                                         "src_toPoseAndTwist2D",
+                                                         [("pose", ["position", "yaw", "covariance"]),
+                                                          ("twist", ["linearSpeeds", "angularSpeed", "covariance"])], lines))
     text = eigensym.HEAD % (ME, "") + "\n".join(lines) + "\n"
     return text, errors
 
